@@ -131,6 +131,11 @@ def fr(x):
     return Fraction(x)
 
 
+def off(x, exact, tol):
+    """x (a float or None reported by the implementation) is not within tol of the exact rational."""
+    return x is None or not math.isfinite(x) or abs(Fraction(x) - exact) > tol
+
+
 class AvgOracle:
     """Property text, from scratch: each seed once (first value), sample mean, corrected
     sample standard deviation, standard error relative to atol / rtol, fresh seeds."""
@@ -199,13 +204,13 @@ class AvgOracle:
             S = sum(fv)
             m = S / n
             A = sum(abs(v) for v in fv) / n
-            if o["mean"] is None or abs(fr(o["mean"]) - m) > Fraction(1, 10 ** 12) * A + Fraction(1, 10 ** 300):
+            if off(o["mean"], m, Fraction(1, 10 ** 12) * A + Fraction(1, 10 ** 300)):
                 self.err("mean", f"mean={o['mean']} but sample mean of data = {float(m)!r}")
             # sum_f, sum_f_sq are the moments of the held data
             Q = sum(v * v for v in fv)
-            if math.isfinite(o["sum_f_sq"]) and abs(fr(o["sum_f_sq"]) - Q) > Fraction(1, 10 ** 12) * Q + Fraction(1, 10 ** 300):
+            if o["sum_f_sq"] != math.inf and off(o["sum_f_sq"], Q, Fraction(1, 10 ** 12) * Q + Fraction(1, 10 ** 300)):
                 self.err("each_seed_once", f"sum_f_sq={o['sum_f_sq']} but sum of squares of data = {float(Q)!r}")
-            if abs(fr(o["sum_f"]) - S) > Fraction(1, 10 ** 12) * A * n + Fraction(1, 10 ** 300):
+            if off(o["sum_f"], S, Fraction(1, 10 ** 12) * A * n + Fraction(1, 10 ** 300)):
                 self.err("each_seed_once", f"sum_f={o['sum_f']} but sum of data = {float(S)!r}")
             if n >= self.minn and math.isfinite(o["sum_f_sq"]):
                 var = sum((v - m) ** 2 for v in fv) / (n - 1)
@@ -487,7 +492,7 @@ class D1Oracle:
             ys = [fr(y) for y in d.values()]
             m = sum(ys) / n
             A = sum(abs(y) for y in ys) / n
-            if abs(fr(float(l.data[x])) - m) > Fraction(1, 10 ** 12) * A + Fraction(1, 10 ** 300):
+            if off(float(l.data[x]), m, Fraction(1, 10 ** 12) * A + Fraction(1, 10 ** 300)):
                 self.err("1d_mean_is_sample_mean", f"data[{x}]={float(l.data[x])!r} but the mean of the {n} samples told there is {float(m)!r}")
             e = float(l.error[x])
             if n == 1:
@@ -826,6 +831,19 @@ def run(chk: Check) -> int:
         cfg = gen_avg_cfg(rng)
         steps, orc, sqx = avg_drive(cfg, rng, maxlen)
         add_avg(cfg, steps, orc, sqx, f"seed{chk.seed}/avg/{k}")
+    exhaustive_avg = 0
+    if not quick:
+        # every op sequence of length 4 over a 9-letter alphabet (prefix-closed, so all shorter ones too)
+        import itertools
+        alpha = [("ask", 1, True), ("ask", 2, True), ("ask", 2, False), ("tell", 0), ("tell", 1), ("tell", 3),
+                 ("tell_pending", 1), ("tell_pending", 4), ("remove_unfinished",)]
+        vals = [1.5, -2.25, 1.5, 1e-3]
+        xcfg = {"atol": 0.25, "rtol": 2.0, "min_npoints": 2, "fam": "ints"}
+        for seq in itertools.product(alpha, repeat=4):
+            ops = [(o[0], o[1], vals[i]) if o[0] == "tell" else o for i, o in enumerate(seq)]
+            steps, orc, sqx = avg_drive(xcfg, None, 0, concrete=ops)
+            add_avg(xcfg, steps, orc, sqx, "exhaustive-len4")
+            exhaustive_avg += 1
     mism, reached, errors = chk.coq_cases("avg", PREAMBLE, "acase", cases, "acheck", "a_reaches_min",
                                           shard=60 if quick else 150)
     for e in errors:
@@ -839,8 +857,8 @@ def run(chk: Check) -> int:
     navg, mis_a = len(cases), len(mism)
 
     # ------------------------------------------------------------ AverageLearner1D
-    nd = 220 if quick else 2500
-    maxlen1 = 26 if quick else 80
+    nd = 220 if quick else 1500
+    maxlen1 = 26 if quick else 60
     cases1, metas1 = [], []
     hist1 = {"ask": 0, "tell": 0, "tell_many_at": 0, "tell_many": 0}
     st1 = {"asks_while_short": 0, "asks_to_short_abscissa": 0, "asks_free": 0, "err_checked": 0,
@@ -899,6 +917,22 @@ def run(chk: Check) -> int:
         cfg = gen_d1_cfg(rng, allow_known=(k % 5 == 0))
         steps, orc, info, l = d1_drive(cfg, rng, maxlen1, dedup, observe_every=1 if quick else 2)
         add_d1(cfg, steps, orc, info, l, f"seed{chk.seed}/avg1d/{k}")
+    exhaustive_1d = 0
+    if not quick:
+        # every arrival order of 5 samples at two abscissae, told one by one, as one tell_many,
+        # or as a tell_many of the first k followed by single tells
+        import itertools
+        base = [(0, 0.25, 1.0), (1, 0.25, 3.5), (2, 0.25, -2.0), (0, -0.5, 7.0), (1, -0.5, 7.5)]
+        for ms in (2, 3):
+            xcfg = {"bounds": (-1.0, 1.0), "min_samples": ms, "max_samples": 50, "delta": 0.2, "alpha": 0.025,
+                    "ns": 0.3, "min_error": 0, "f": "sin", "sigma": 0.1, "fseed": 0, "allow_known": False}
+            for perm in itertools.permutations(base):
+                for k in (0, 2, 3, 4, 5):
+                    ops = ([("tell_many", list(perm[:k]))] if k else []) + [("tell", s_, x_, y_) for s_, x_, y_ in perm[k:]]
+                    ops.append(("ask", 2, False))
+                    steps, orc, info, l = d1_drive(xcfg, None, 0, dedup, concrete=ops)
+                    add_d1(xcfg, steps, orc, info, l, "exhaustive-perm5", twin=(k > 0))
+                    exhaustive_1d += 1
     mism1, legal1, errors1 = chk.coq_cases("avg1d", PREAMBLE, "dcase", cases1, "dcheck", "dlegal",
                                            shard=30 if quick else 160)
     for e in errors1:
@@ -919,6 +953,8 @@ def run(chk: Check) -> int:
         "reading_note": "undersampled-first is checked in the weaker reading: while some evaluated abscissa has fewer "
                         "than min_samples samples every request goes to an evaluated abscissa of _undersampled_points "
                         "(asks_to_short_abscissa / asks_while_short says how often the chosen one itself was short)",
+        "exhaustive_small_scope_cases": {"avg_all_op_sequences_len4": exhaustive_avg,
+                                         "avg1d_all_orders_of_5_samples_x_batch_splits": exhaustive_1d},
         "exhaustive": False})
     return chk.finish(
         rule="AverageLearner: seeded op sequences on the real class (ask 0..5 with/without commit, tells of pending / "
